@@ -130,14 +130,15 @@ def expected_mask(b, a):
     X = f.region.mesh.points
     npts, md, fd = X.shape[0], X.shape[1], f.dim
     if a.get("mask") is not None:
-        m = np.asarray(a["mask"]).reshape(npts, -1)
+        m = np.asarray(a["mask"]).reshape(npts, -1).copy()
         if m.shape[1] == 1:
             m = np.tile(m, (1, fd))
-            skip = a.get("skip")
-            if skip is not None:
-                for i in range(fd):
-                    if i < len(skip) and skip[i]:
-                        m[:, i] = False
+        # documented: "If a mask is passed, fx, fy and fz are ignored. However, skip is still applied on the mask."
+        skip = a.get("skip")
+        if skip is not None:
+            for i in range(fd):
+                if i < len(skip) and skip[i]:
+                    m[:, i] = False
         return m
     sel = []
     for ax, name in enumerate(("fx", "fy", "fz")[:md]):
@@ -267,7 +268,7 @@ def random_bounds(rng, field, mesh, tag):
         dimm = fm.dim
         dim = f.dim
         style = str(rng.choice(["float", "callable", "and", "skip", "pointmask", "dofmask", "array-dim", "array-full", "or2", "three", "array-skip",
-                                "mask-skip", "update"]))
+                                "mask-skip", "dofmask-skip", "update"]))
         kw = {}
         X = fm.points
         ax = int(rng.integers(0, dimm))
@@ -318,6 +319,12 @@ def random_bounds(rng, field, mesh, tag):
             kw["value"] = rng.standard_normal(dim - sum(sk[:dim]))
         elif style == "mask-skip":
             kw["mask"] = rng.uniform(size=fm.npoints) < 0.3
+            sk = [0] * 3
+            if dim > 1:
+                sk[int(rng.integers(0, dim))] = 1
+            kw["skip"] = tuple(sk[:dim])
+        elif style == "dofmask-skip":
+            kw["mask"] = rng.uniform(size=(fm.npoints, dim)) < 0.4
             sk = [0] * 3
             if dim > 1:
                 sk[int(rng.integers(0, dim))] = 1
@@ -662,7 +669,7 @@ SPEC = {
                        "container-", "container+=", "container-=", "container+list", "getitem", "single-entry-assembly",
                        "solve.partition", "points-without-cells", "fields:2", "fields:3", "loadcase:symmetry",
                        "loadcase:uniaxial", "loadcase:biaxial", "loadcase:shear", "loadcase:uniaxial:values"]
-    + ["feature:" + s for s in ("float", "callable", "and", "skip", "pointmask", "dofmask", "array-dim", "array-full", "or2", "three", "array-skip", "mask-skip", "update")],
+    + ["feature:" + s for s in ("float", "callable", "and", "skip", "pointmask", "dofmask", "array-dim", "array-full", "or2", "three", "array-skip", "mask-skip", "dofmask-skip", "update")],
     "rule": ("7 container kinds (1..3 fields, constant/linear/disconnected duals, scalar+vector, points without cells) x random "
              "dictionaries of 1..4 possibly overlapping boundaries (coordinate floats/callables, and/or, skip tuples, point and dof "
              "masks, scalar/array values, both insertion orders) judged by post-conditions on dof.partition/apply against the "
